@@ -33,6 +33,7 @@ void run(const Case &c, verif_result *out) {
     eo.prop = c.get("prop", "C01");
     eo.hasLabelSets = (eo.prop == "C03") || c.geti("labelsets", 0) != 0;
     eo.exactWeights = c.get("mode", "exact") != "rounded";
+    eo.pairValues = c.geti("pairvalues", 0) != 0;
     size_t n0 = (size_t)c.geti("n0", 0);
     if (n0 > 12)
         n0 = 12;
